@@ -7,6 +7,8 @@ reference `default_jumps` of gvmc.ref.hop.
 
 from __future__ import annotations
 
+import numpy as np
+
 from .. import impl, traces
 from ..core import Result
 from ..ref import hop
@@ -74,6 +76,8 @@ def check_trace(trace, S, M):
         tr = impl.make_transitions(trace, S)
     except Exception as e:  # noqa: BLE001  (C03's business; reported there)
         return viols, ('events-raise', type(e).__name__)
+    ev_before = impl.event_rows(tr.events)
+    st_before = np.asarray(tr.states).copy()
     D = hop.default_jumps(trace)
     Dkeys = {(a, o, d, s) for a, o, d, s, _ in D}
     o_arr, _ = hop.state_arrays(trace)
@@ -110,6 +114,8 @@ def check_trace(trace, S, M):
             if not set(rows) <= set(prev_rows):
                 viols.append(('residence-adds-jumps', f'm={prev_m}->{m}: {sorted(set(rows) - set(prev_rows))} appeared'))
         prev_rows, prev_m = rows, m
+    if impl.event_rows(tr.events) != ev_before or not np.array_equal(np.asarray(tr.states), st_before):
+        viols.append(('jump-classifier-modifies-events-or-states', ''))
     return viols, tuple(keys)
 
 
